@@ -131,10 +131,11 @@ _MODEL_CLASS = None
 def model_class():
     global _MODEL_CLASS
     if _MODEL_CLASS is None:
+        from glotaran.builtin.megacomplexes.decay import DecayMegacomplex
         from glotaran.builtin.megacomplexes.decay import DecayParallelMegacomplex
         from glotaran.builtin.megacomplexes.decay import DecaySequentialMegacomplex
         _MODEL_CLASS = Model.create_class_from_megacomplexes(
-            [FaultMegacomplex, LatMegacomplex, LatIndexMegacomplex, DecaySequentialMegacomplex, DecayParallelMegacomplex]
+            [FaultMegacomplex, LatMegacomplex, LatIndexMegacomplex, DecaySequentialMegacomplex, DecayParallelMegacomplex, DecayMegacomplex]
         )
     return _MODEL_CLASS
 
